@@ -15,6 +15,7 @@ from typing import (
 
 from pyparsing import (
     ParseException,
+    Keyword,
     Word,
     alphanums,
     infix_notation,
@@ -274,14 +275,15 @@ class ConditionNOT(ConditionExpression):
 def parse_condition_expression(
     condition_expression: str,
 ) -> ConditionExpression:
-    identifier = Word(alphanums + "_-")
+    identifier_chars = alphanums + "_-"
+    identifier = Word(identifier_chars)
     identifier.set_parse_action(ConditionIdentifier.from_parsed)
     condition_parser = infix_notation(
         identifier,
         [
-            ("not", 1, opAssoc.RIGHT, ConditionNOT.from_parsed),
-            ("and", 2, opAssoc.LEFT, ConditionAND.from_parsed),
-            ("or", 2, opAssoc.LEFT, ConditionOR.from_parsed),
+            (Keyword("not", ident_chars=identifier_chars), 1, opAssoc.RIGHT, ConditionNOT.from_parsed),
+            (Keyword("and", ident_chars=identifier_chars), 2, opAssoc.LEFT, ConditionAND.from_parsed),
+            (Keyword("or", ident_chars=identifier_chars), 2, opAssoc.LEFT, ConditionOR.from_parsed),
         ],
     )
     try:
